@@ -99,6 +99,26 @@ def sep_after(A, B, shift, exact):
     return 0.0, -e                            # -e is a lower bound of the gap
 
 
+_DEPTH = {}
+
+
+def infl_depth(A, B, rec):
+    """exact depth of two ball-inflated lattice polytopes with disjoint cores (fills the certificate fields of rec), or None"""
+    if rec.get("infl"):
+        return _DEPTH[rec["id"]]
+    cert = NW.exact_certificate(A, B)
+    if not cert or cert["rA"] + cert["rB"] == 0:
+        return None
+    dc = math.sqrt(sum(c * c for c in cert["xn"])) / cert["W"]
+    RR = cert["rA"] + cert["rB"]
+    if dc <= 1e-9 or RR - dc <= 1e-6:
+        return None
+    rec.update({"infl": True, "VA": cert["VA"], "VB": cert["VB"], "xn": cert["xn"], "W": cert["W"], "wa": cert["wa"], "wb": cert["wb"],
+                "rA": cert["rA"], "rB": cert["rB"], "G": cert["G"]})
+    _DEPTH[rec["id"]] = RR - dc
+    return RR - dc
+
+
 def measure_epa(rid, A, B, lift, clsA, clsB):
     from distance3d import gjk, epa
     s = lift[0]
@@ -137,6 +157,13 @@ def measure_epa(rid, A, B, lift, clsA, clsB):
         sa = sep_after(A, B, sh, True)
         if sa:
             rec["residual"], rec["gap"] = ticks(sa[0] * s, tick), ticks(sa[1] * s, tick)
+    elif infl_depth(A, B, rec) is not None:
+        # ball-inflated lattice polytopes with disjoint cores: the depth is rA + rB - dist(cores), certified by TLC (InflOK)
+        depth = infl_depth(A, B, rec)
+        rec["judged"] = True
+        rec["depthErr"] = ticks(abs(float(np.linalg.norm(mt)) - s * depth), tick)
+        e, _ = extent_min(A, B, sh)
+        rec["gap"] = ticks(max(0.0, -e) * s, tick)
     else:
         U, _ = extent_min(A, B, np.zeros(3))
         if U >= 0:
@@ -150,7 +177,8 @@ def measure_epa(rid, A, B, lift, clsA, clsB):
 def base_rec(rid, algo, pp, smooth):
     rec = {"id": rid, "kind": "pen", "algo": algo, "exact": pp is not None, "exc": "none", "smooth": bool(smooth), "judged": False,
            "VA": [[0, 0, 0]], "VB": [[0, 0, 0]], "fn": [0, 0, 1], "fc": 0, "success": False, "hit": False, "deep": False,
-           "depthErr": 0, "below": 0, "residual": 0, "gap": 0, "posA": 0, "posB": 0, "unit": 0, "depthNeg": False, "simplexRows": 4, "coincident": False, "prevChanged": False}
+           "depthErr": 0, "below": 0, "residual": 0, "gap": 0, "posA": 0, "posB": 0, "unit": 0, "depthNeg": False, "simplexRows": 4, "coincident": False, "prevChanged": False,
+           "infl": False, "xn": [0, 0, 0], "W": 1, "wa": [1], "wb": [1], "rA": 0, "rB": 0, "G": 1}
     if pp:
         rec.update({"VA": pp[3], "VB": pp[4], "fn": pp[1], "fc": pp[2]})
     return rec
